@@ -29,6 +29,21 @@ def flag_infeasible(f, name, value):
     return out
 
 
+def pow2_of_field(f, e, depth=3):
+    """if `e` is (a local holding) exactly `1 << <field>`, the field's name; else None"""
+    e = strip_casts(f.resolve_x(e))
+    if e is None:
+        return None
+    if e.get("k") == "ref" and e.get("rk") in ("l", "sl") and depth > 0:
+        d = f.single_def(e["n"])
+        return pow2_of_field(f, d, depth - 1) if d is not None else None
+    if e.get("k") == "bin" and e.get("op") == "<<" and const_val(e["lhs"]) == 1:
+        r = strip_casts(e["rhs"])
+        if r.get("k") == "mem":
+            return r["f"]
+    return None
+
+
 def tables_rebased(prog, res):
     R = "T13.every-index-table-rebased"
     rs = prog.fn("ZSTD_reset_matchState")
@@ -64,10 +79,11 @@ def tables_rebased(prog, res):
     for b, i, c in rd.calls(("ZSTD_reduceTable", "ZSTD_reduceTable_btlazy2")):
         a0 = strip_casts(c["a"][0])
         if a0.get("k") == "mem":
-            reduced.setdefault(a0["f"], []).append((c["c"], {a for a in rd.anchors(c["a"][1], depth=3) if a.startswith("f:") and a.endswith(("Log", "Log3"))}))
+            p2 = pow2_of_field(rd, c["a"][1])
+            reduced.setdefault(a0["f"], []).append((c["c"], {"f:" + p2} if p2 else {"<not 1 << field>"}))
     for fld, logs in sorted(reserved.items()):
         got = reduced.get(fld, [])
-        ok = bool(got) and all(set(l) & logs for _, l in got)
+        ok = bool(got) and all(l and l <= logs for _, l in got)
         res.check(ok, R, fld, rd.loc, "rebased by ZSTD_reduceIndex over 1 << %s" % sorted(logs),
                   "index table %s is reserved with size %s but ZSTD_reduceIndex %s: stale indices survive an overflow correction"
                   % (fld, sorted(logs), "does not reduce it" if not got else "reduces it with size %s" % [sorted(l) for _, l in got]))
@@ -86,9 +102,19 @@ def tables_rebased(prog, res):
     res.check(bool(lt), R, "reducer-squash", ri.loc, "indices below the threshold are squashed to 0", "squash comparison changed")
     l = prog.fn("ZSTD_ldm_generateSequences")
     lr = [c for b, i, c in l.calls("ZSTD_ldm_reduceTable")]
-    ok = len(lr) == 1 and "f:hashLog" in l.anchors(lr[0]["a"][1], depth=3) and strip_casts(lr[0]["a"][0]).get("f") == "hashTable"
+    rc = prog.fn("ZSTD_resetCCtx_internal")
+    ldm_res = None
+    for b, i, x in rc.events(lambda y: y.get("k") == "asg"):
+        pth = [y.get("f") for y in walk(x["lhs"]) if y.get("k") == "mem"]
+        if "hashTable" in pth and "ldmState" in pth:
+            for y in walk(rc.resolve_x(x["rhs"])):
+                if is_call(y) and y.get("c", "").startswith("ZSTD_cwksp_reserve"):
+                    for z in walk(y["a"][1]):
+                        ldm_res = ldm_res or pow2_of_field(rc, z)
+    res.check(ldm_res == "hashLog", R, "ldm-hashTable:reserved-size", rc.loc, "LDM table reserved with 1 << ldmParams.hashLog entries", "LDM table reservation changed (%s)" % ldm_res)
+    ok = len(lr) == 1 and pow2_of_field(l, lr[0]["a"][1]) == ldm_res and strip_casts(lr[0]["a"][0]).get("f") == "hashTable"
     res.check(ok, R, "ldm-hashTable", l.loc, "LDM hash table rebased over 1 << hashLog", "LDM table not rebased with its own size")
-    res.need(R, 8)
+    res.need(R, 9)
 
 
 def correction_everywhere(prog, res):
